@@ -14,6 +14,79 @@ pub fn civil_from_days(z: i64) -> (i64, u32, u32) {
     (if m <= 2 { y + 1 } else { y }, m, d)
 }
 
+/// (year, month 1..=12, day 1..=31) -> days since 1970-01-01 (the inverse of `civil_from_days`).
+pub fn days_from_civil(y: i64, m: u32, d: u32) -> i64 {
+    let y = if m <= 2 { y - 1 } else { y };
+    let era = if y >= 0 { y } else { y - 399 } / 400;
+    let yoe = (y - era * 400) as i64;
+    let mp = (m as i64 + 9) % 12;
+    let doy = (153 * mp + 2) / 5 + d as i64 - 1;
+    let doe = yoe * 365 + yoe / 4 - yoe / 100 + doy;
+    era * 146_097 + doe - 719_468
+}
+
+/// A time zone given as a POSIX TZ string: standard offset, and optionally a daylight-saving
+/// offset with the two `Mm.w.d/time` rules (month, week 1..=5 where 5 = last, weekday 0 = Sunday,
+/// local time of day in seconds). Offsets are seconds east of UTC.
+#[derive(Clone, Copy, Debug, PartialEq)]
+pub struct Zone {
+    pub tz: &'static str,
+    pub std_off: i64,
+    pub dst: Option<(i64, (u32, u32, u32, i64), (u32, u32, u32, i64))>,
+}
+
+pub const ZONES: [Zone; 10] = [
+    Zone { tz: "UTC", std_off: 0, dst: None },
+    Zone { tz: "JST-9", std_off: 32_400, dst: None },
+    Zone { tz: "IST-5:30", std_off: 19_800, dst: None },
+    Zone { tz: "EST5", std_off: -18_000, dst: None },
+    Zone { tz: "NST3:30", std_off: -12_600, dst: None },
+    Zone { tz: "<+14>-14", std_off: 50_400, dst: None },
+    Zone { tz: "<-12>12", std_off: -43_200, dst: None },
+    Zone { tz: "CET-1CEST,M3.5.0,M10.5.0/3", std_off: 3_600, dst: Some((7_200, (3, 5, 0, 7_200), (10, 5, 0, 10_800))) },
+    Zone { tz: "EST5EDT,M3.2.0,M11.1.0", std_off: -18_000, dst: Some((-14_400, (3, 2, 0, 7_200), (11, 1, 0, 7_200))) },
+    Zone { tz: "AEST-10AEDT,M10.1.0,M4.1.0/3", std_off: 36_000, dst: Some((39_600, (10, 1, 0, 7_200), (4, 1, 0, 10_800))) },
+];
+
+/// Local wall-clock second count (as if UTC) at which rule `(m, w, d, time)` falls in year `y`.
+fn rule_local_secs(y: i64, rule: (u32, u32, u32, i64)) -> i64 {
+    let (m, w, d, time) = rule;
+    let first = days_from_civil(y, m, 1);
+    // weekday of the first of the month: 1970-01-01 was a Thursday (4)
+    let wd_first = (first + 4).rem_euclid(7) as u32;
+    let mut day = 1 + (d + 7 - wd_first) % 7 + (w - 1) * 7;
+    let dim = (days_from_civil(if m == 12 { y + 1 } else { y }, if m == 12 { 1 } else { m + 1 }, 1) - first) as u32;
+    while day > dim {
+        day -= 7;
+    }
+    (first + day as i64 - 1) * 86_400 + time
+}
+
+impl Zone {
+    pub fn by_tz(tz: Option<&str>) -> Zone {
+        ZONES.iter().copied().find(|z| Some(z.tz) == tz).unwrap_or(ZONES[0])
+    }
+    /// Seconds east of UTC in force at the instant `utc_secs`.
+    pub fn offset_at(&self, utc_secs: i64) -> i64 {
+        let Some((dst_off, start, end)) = self.dst else { return self.std_off };
+        let (y, _, _) = civil_from_days((utc_secs + self.std_off).div_euclid(86_400));
+        // the change to daylight time is given in standard time, the change back in daylight time
+        let start_utc = rule_local_secs(y, start) - self.std_off;
+        let end_utc = rule_local_secs(y, end) - dst_off;
+        let in_dst = if start_utc < end_utc { utc_secs >= start_utc && utc_secs < end_utc } else { utc_secs >= start_utc || utc_secs < end_utc };
+        if in_dst {
+            dst_off
+        } else {
+            self.std_off
+        }
+    }
+    /// The UTC instants of the two changes in year `y` (to daylight time, back to standard time).
+    pub fn changes(&self, y: i64) -> Option<(i64, i64)> {
+        let (dst_off, start, end) = self.dst?;
+        Some((rule_local_secs(y, start) - self.std_off, rule_local_secs(y, end) - dst_off))
+    }
+}
+
 const MONTHS: [&str; 12] = ["Jan", "Feb", "Mar", "Apr", "May", "Jun", "Jul", "Aug", "Sep", "Oct", "Nov", "Dec"];
 
 /// Format seconds+nanos since the epoch in UTC. Supports %Y %m %d %H %M %S %b %Z %f and literals.
